@@ -81,6 +81,9 @@ class Client:
         self.socks = []
         self.snap = None
         self.want_snap = None
+        self.snap_pre = None
+        self.window_alts = {}
+        self.in_window = False
         self.killed = False
         self.done_ops = 0
 
@@ -126,6 +129,7 @@ class StoreWorld:
         self.phase_no = 0
         self.imager = None
         self.wind_up = False
+        self.exclusion_suspect = False
 
     # -- reporting ---------------------------------------------------------
     def violate(self, prop, rule, sig, msg, fatal=True):
@@ -223,9 +227,27 @@ class StoreWorld:
             if cl is not None and cl.want_snap is not None:
                 cl.snap = cl.want_snap()
                 cl.want_snap = None
+                cl.in_window = False
             return real_release(s)
 
         comms.release = release
+        if not hasattr(StoreWorld, '_real_acquire'):
+            StoreWorld._real_acquire = comms.acquire
+        real_acquire = StoreWorld._real_acquire
+
+        def acquire(name):
+            s = real_acquire(name)
+            cl = w.client_of_thread()
+            if cl is not None and cl.want_snap is not None:
+                # the load has the lock now: what the model says at this instant is as legitimate as what it says
+                # at release time -- they only differ when a fault broke the mutual exclusion (the lock connection
+                # of another client was reset while that client kept writing)
+                cl.snap_pre = cl.want_snap()
+                cl.window_alts = {}
+                cl.in_window = True
+            return s
+
+        comms.acquire = acquire
         sim = self.sim
 
         def connect(address):
@@ -459,12 +481,21 @@ class StoreWorld:
         if name != want:
             self.violate('C07', 'novelty_names', 'differ', f'bot was told {name}, stored {want}')
         self.judge_novelty(it, isnew)
+        me = self.client_of_thread()
+        for other in self.clients:
+            if other is not me and other.in_window:
+                # possible only after a fault broke the lock: this value appears in the middle of another client's load
+                other.window_alts.setdefault((it.target, it.ident), []).append((copy.deepcopy(it.content), it.digest))
+                self.probes['update_inside_load_of_another_client'] += 1
         if it.key in self.model.prime:
             # the primary entry is overwritten in place (dbm.dumb rewrites the value without touching its directory)
             self.probes['overwrite_existing_entry'] += 1
             if self.imager is not None:
                 self.probes['overwrite_existing_entry_under_crash_enumeration'] += 1
-        self.model.ack(it)
+        if self.exclusion_suspect and sum(1 for c in self.clients if c.alive and c.cur and c.cur['kind'] == 'update') > 1:
+            self.model.ack_overlapping(it)  # two updates side by side after a lock fault: see store_model
+        else:
+            self.model.ack(it)
         self.acks_log(it, isnew)
         self.op(f'   ack {it.brief()} new={bool(isnew)}')
 
@@ -475,6 +506,11 @@ class StoreWorld:
         m = self.model
         if it.digest in m.maybe_blobs:
             self.probes['novelty_undetermined_after_fault'] += 1
+            return
+        if self.exclusion_suspect and sum(1 for c in self.clients if c.alive and c.cur and c.cur['kind'] == 'update') > 1:
+            # Leniency: a reset lock connection let two updates run side by side; the order in which the pipeline
+            # recorded their values is not the order in which the clients learn about it
+            self.probes['novelty_undetermined_exclusion_broken'] += 1
             return
         expect = it.digest not in m.blobs
         if bool(isnew) != expect:
@@ -499,6 +535,7 @@ class StoreWorld:
             self.probes['update_cut_short'] += 1
         op['bot'] = None
         cl.want_snap = None
+        cl.in_window = False
 
     # loads ------------------------------------------------------------------
     @staticmethod
@@ -548,13 +585,25 @@ class StoreWorld:
         Leniencies: (1) entries whose set was never acknowledged (client died mid-update) may show either
         state; (2) the loaded object is compared by type, content tree (strict: types of leaves count) and
         version seal -- its `_version_` attribute is whatever the Value class restores on unpickling and is
-        not asserted."""
+        not asserted; (3) the expectation is taken from the model both when the load got the lock and when it
+        released it, plus every value another client had acknowledged in between: these only differ when a
+        fault (reset of a lock connection whose client keeps writing) broke the mutual exclusion -- such a load
+        is not "later" than the update, and any of the states it overlapped is accepted."""
         if snap is None:
             raise core.HarnessError('load returned without releasing the lock (no expectation snapshot)')
+        cl = self.client_of_thread()
+        pre = (cl.snap_pre if cl is not None else None) or {}
+        alts = (cl.window_alts if cl is not None else None) or {}
         for sv in alg.state_vectors():
             for vn in sv.keys():
                 key = (sv.name(), vn)
-                got, ident, outcomes = sv[vn], idents[key], snap[key]
+                got, ident = sv[vn], idents[key]
+                outcomes = list(snap[key])
+                extra = [o for o in pre.get(key, []) + alts.get((target, ident), [])
+                         if not any(o is x or (o is not sm.UNTOUCHED and x is not sm.UNTOUCHED and o[1] == x[1]) for x in outcomes)]
+                if extra:
+                    outcomes += extra
+                    self.probes['load_overlapped_by_update_after_lock_fault'] += 1
                 if got is pristine[key]:
                     ok = any(o is sm.UNTOUCHED for o in outcomes)
                     desc = 'left untouched'
@@ -573,6 +622,8 @@ class StoreWorld:
                     self.violate('C06', 'load_mismatch', sig,
                                  f'{how} load of {ident[0]}.{ident[1]}@{sm.vstr(ident[2])}.{ident[3]}@{sm.vstr(ident[4])}.'
                                  f'{ident[5]}@{sm.vstr(ident[6])} on {target} run={op["run"]}: got {desc}, model says {want}')
+        if cl is not None:
+            cl.snap_pre, cl.window_alts = None, {}
         self.loads_checked += 1
 
     def classify_load(self, me, target, runid, got, pristine):
@@ -637,6 +688,7 @@ class StoreWorld:
                         o['msv'] = False
         for i, lst in enumerate(ops):
             self.clients.append(Client(self, i, f'c{self.phase_no}.{i}', lst))
+        self.exclusion_suspect = False
         self.plan_faults()
         self.actor = PipelineActor(self, ch.choose('ph.nactor', cfg['actor_ops'] + 1))
         self.sim.actors[:] = [self.actor]
@@ -720,6 +772,9 @@ class StoreWorld:
                         self.faults['fault.connection_reset'] += 1
                         self.op(f'FAULT: connection {c.cid} reset')
                         c.reset('reset')
+                        # if that was the lock connection of a client which keeps running, the pipeline has freed the
+                        # lock while the client still writes: mutual exclusion is void for the rest of this phase
+                        self.exclusion_suspect = True
                 elif f[0] == 'crash':
                     if any(c.alive for c in self.clients):
                         self.crash_reopen(mid_phase=True)
@@ -1272,6 +1327,7 @@ def warmup():
     import dawgie.fe.api.facet  # noqa
     from worlds import store_c07, store_crash, store_search  # noqa
 
+    env.sweep_stale()
     return True
 
 
